@@ -126,7 +126,8 @@ Definition own_of (l : tlocal) (p : pc) : option N :=
 Definition next_own_ok (bound : N) (m' : loc -> N) (l' : tlocal) (n : N) (nx : next) : Prop :=
   match nx with
   | NGoto p' => top_ok bound m' l' n (Some p')
-  | NPush _ _ | NRet _ => node_idle m' n
+  | NPush fs _ => node_idle m' n /\ top_ok bound m' l' n (hd_error fs)
+  | NRet _ => node_idle m' n
   | NPanic _ => False
   | NFault _ => True
   end.
@@ -173,7 +174,39 @@ Proof.
   repeat match type of H with
          | context [match ?e with _ => _ end] => destruct e eqn:?
          | context [if ?b then _ else _] => destruct b eqn:?
-         end; injection H as <- <-; exact Hi.
+         end; injection H as <- <-; cbn; first [exact Hi | split; exact Hi].
+Qed.
+
+Lemma enter_load_top cf l c l' fs bound m n :
+  enter_load cf l c = inl (l', fs) -> node_idle m n -> top_ok bound m l' n (hd_error fs).
+Proof.
+  unfold enter_load, load_body, fallback_entry. intros H Hi.
+  destruct (tl_node l) eqn:Hn; [|injection H as <- <-; exact Hi].
+  cbn [tl_node tl_set_depth] in H. rewrite Hn in H.
+  destruct (cf_use_fast cf); [injection H as <- <-; exact Hi|].
+  destruct (cf_debug cf); injection H as <- <-; cbn; auto.
+Qed.
+
+Lemma enter_load_top_app cf l c l' fs ws bound m n :
+  enter_load cf l c = inl (l', fs) -> node_idle m n -> top_ok bound m l' n (hd_error (fs ++ ws)).
+Proof.
+  intros H Hi. pose proof (enter_load_top _ _ _ _ _ bound m n H Hi) as Ht.
+  destruct fs; [|exact Ht].
+  exfalso. unfold enter_load in H. destr_in H; try discriminate; injection H as _ Hfs; discriminate.
+Qed.
+
+Lemma enter_pay_top l c old l' fs bound m n :
+  enter_pay l c old = (l', fs) -> node_idle m n -> top_ok bound m l' n (hd_error fs).
+Proof.
+  unfold enter_pay, pay_body. intros H Hi. destr_in H; injection H as <- <-; exact Hi.
+Qed.
+
+Lemma guard_frames_top p d bound m l n :
+  node_idle m n -> top_ok bound m l n (hd_error (guard_drop_frames p d)) /\
+                   top_ok bound m l n (hd_error (guard_into_frames p d)).
+Proof.
+  intros Hi. unfold guard_drop_frames, guard_into_frames.
+  destruct d; [destruct (p =? 0)|destruct (p =? 0)]; split; exact Hi.
 Qed.
 
 Lemma help_dispatch_own cf l c old w ctl bound m n :
@@ -298,6 +331,22 @@ Proof.
   all: try (match goal with |- ctl_ok _ _ => apply Hctl; tauto end).
   all: try (match goal with |- _ /\ (?w = ?n -> ~ is_gen _) =>
               split; [tauto|]; intros -> Hgg; rewrite (proj1 Htop) in Hgg; exact (is_gen_not_idle _ Hgg eq_refl) end).
+  all: try (match goal with
+            | H : enter_load _ _ _ = inl (?t, ?fs) |- _ /\ top_ok _ _ ?t _ (hd_error (?fs ++ _)) =>
+                split; [tauto|]; eapply enter_load_top_app; [exact H|]
+            | H : enter_load _ _ _ = inl (?t, ?fs) |- _ /\ top_ok _ _ ?t _ (hd_error ?fs) =>
+                split; [tauto|]; eapply enter_load_top; [exact H|]
+            | H : enter_pay _ _ _ = (?t, ?fs) |- _ /\ top_ok _ _ ?t _ (hd_error ?fs) =>
+                split; [tauto|]; eapply enter_pay_top; [exact H|]
+            | H : guard_drop_frames ?p ?d = ?fs |- _ /\ top_ok _ ?m ?t ?n0 (hd_error ?fs) =>
+                split; [tauto|]; rewrite <- H; apply guard_frames_top
+            end;
+            unfold node_idle;
+            repeat match goal with
+              | H : rc_inc _ _ = Some (?s0, _) |- context [mem ?s0 ?l0] => rewrite (rc_inc_other _ _ _ _ l0 H) by discriminate
+              | H : rc_alloc _ _ = Some (?s0, _) |- context [mem ?s0 ?l0] => rewrite (rc_alloc_other _ _ _ _ l0 H) by discriminate
+              end;
+            rewrite ?upd_other by discriminate; tauto).
   - (* LAscan finds a free slot *)
     split; [tauto|]. split; [assumption|]. apply N.mod_upper_bound. discriminate.
   - (* LA3: publishing into a fast slot leaves the helping slot alone *)
@@ -313,5 +362,264 @@ Proof.
   - (* PE7 succeeded: it was not our own control word *)
     split; [|tauto]. rewrite upd_other; [tauto|]. intros [= ->].
     destruct Hp as (_ & Hgen & _). rewrite (proj1 Htop) in *. subst ctl. exact (is_gen_not_idle _ Hgen eq_refl).
+Qed.
+
+
+(** ** Global tables: control words, handover spaces, in_use *)
+Definition inuse_eff (m m' : loc -> N) (p : pc) (l l' : tlocal) (nx : next) : Prop :=
+  (forall k, m' (LInUse k) = m (LInUse k)) /\ (tl_node l' = tl_node l \/ exists n r, tl_node l = Some n /\ tl_node l' = None /\ nx = NPush [C1 n] (WExit r))
+  \/ (exists k, p = GCool3 k /\ tl_node l' = tl_node l /\ (forall k', k' <> k -> m' (LInUse k') = m (LInUse k')) /\
+                m (LInUse k) <> NODE_USED /\ m' (LInUse k) <> NODE_USED)
+  \/ (exists k, (p = GClaim k \/ (p = GPush k /\ m LHead = k)) /\ (forall k', k' <> k -> m' (LInUse k') = m (LInUse k')) /\
+                (p = GClaim k -> m (LInUse k) = NODE_UNUSED) /\ m' (LInUse k) = NODE_USED /\
+                tl_node l' = Some k /\ nx = NRet (RNode k) /\ (p = GClaim k -> m' LHead = m LHead) /\ (p = GPush k -> m' LHead = k + 1))
+  \/ (exists k, p = C2 k /\ tl_node l' = tl_node l /\ (forall k', k' <> k -> m' (LInUse k') = m (LInUse k')) /\
+                m' (LInUse k) = NODE_COOLDOWN /\ (nx = NGoto (C3 k) \/ exists ps, nx = NPanic ps)).
+
+Lemma node_init_inuse s n k : mem (node_init s n) (LInUse k) = if decide (k = n) then NODE_USED else mem s (LInUse k).
+Proof.
+  unfold node_init. cbn. destruct (decide (k = n)) as [->|Hne].
+  - rewrite (upd_other _ (LWriters n)) by discriminate. rewrite upd_same. reflexivity.
+  - repeat (rewrite upd_other by (discriminate || congruence)). reflexivity.
+Qed.
+
+Lemma with_exit_node l r l' nx :
+  with_exit l r = (l', nx) ->
+  (tl_node l' = tl_node l /\ nx = NRet r) \/ (exists n, tl_node l = Some n /\ tl_node l' = None /\ nx = NPush [C1 n] (WExit r)).
+Proof.
+  unfold with_exit. intros H. destr_in H; injection H as <- <-; cbn; eauto.
+Qed.
+
+Lemma fallback_entry_node cf l c l' nx : fallback_entry cf l c = (l', nx) -> tl_node l' = tl_node l.
+Proof. unfold fallback_entry. intros H. destr_in H; injection H as <- <-; cbn; congruence. Qed.
+Lemma gen_step_node cf l c l' nx : gen_step cf l c = (l', nx) -> tl_node l' = tl_node l.
+Proof. unfold gen_step. intros H. destr_in H; injection H as <- <-; cbn; congruence. Qed.
+Lemma enter_load_node cf l c l' fs : enter_load cf l c = inl (l', fs) -> tl_node l' = tl_node l.
+Proof.
+  unfold enter_load, load_body. intros H. destruct (tl_node l) eqn:Hn; [|injection H as <- <-; exact Hn].
+  destruct (cf_use_fast cf).
+  - injection H as <- <-. exact Hn.
+  - destruct (fallback_entry cf _ c) as [l2 nx] eqn:Hf. apply fallback_entry_node in Hf.
+    destruct nx; try discriminate. injection H as <- <-. rewrite Hf. exact Hn.
+Qed.
+Lemma enter_pay_node l c old l' fs : enter_pay l c old = (l', fs) -> tl_node l' = tl_node l.
+Proof. unfold enter_pay. intros H. destr_in H; injection H as <- <-; cbn; congruence. Qed.
+
+Ltac iu_close :=
+  repeat split; eauto;
+  try (intros [=]; fail);
+  try (intros k' Hk; rewrite ?node_init_inuse; try destruct (decide _); try congruence; cbn; apply upd_other; congruence || discriminate);
+  try (rewrite ?node_init_inuse; try destruct (decide _); try congruence; rewrite ?upd_same; unfold NODE_COOLDOWN, NODE_USED, NODE_UNUSED in *; congruence || discriminate);
+  try (intros _; rewrite node_init_head; cbn; rewrite upd_same; reflexivity).
+
+Lemma exec_inuse cf s l p x s' l' evs nx :
+  exec cf s l p x = (s', l', evs, nx) ->
+  inuse_eff (mem s) (mem s') p l l' nx.
+Proof.
+  intros He. unfold inuse_eff.
+  destruct p; unfold exec in He;
+    unfold a_load, a_store, a_swap, a_cas, a_fadd, a_fsub in He; cbn in He.
+  all: destr_in He; try discriminate.
+  all: try (injection He as <- <- <- <-).
+  all: cbn [mem m_set] in *.
+  all: repeat match goal with
+         | H : with_exit _ _ = (_, _) |- _ => apply with_exit_node in H
+         | H : fallback_entry _ _ _ = (_, _) |- _ => apply fallback_entry_node in H
+         | H : gen_step _ _ _ = (_, _) |- _ => apply gen_step_node in H
+         | H : enter_load _ _ _ = inl (_, _) |- _ => apply enter_load_node in H
+         | H : enter_pay _ _ _ = (_, _) |- _ => apply enter_pay_node in H
+         end.
+  all: try (left; split;
+            [intros k0;
+             repeat match goal with
+               | H : rc_inc _ _ = Some (?s0, _) |- context [mem ?s0 ?l0] => rewrite (rc_inc_other _ _ _ _ l0 H) by discriminate
+               | H : rc_dec _ _ = Some (?s0, _) |- context [mem ?s0 ?l0] => rewrite (rc_dec_other _ _ _ _ l0 H) by discriminate
+               | H : rc_alloc _ _ = Some (?s0, _) |- context [mem ?s0 ?l0] => rewrite (rc_alloc_other _ _ _ _ l0 H) by discriminate
+               end;
+             unfold slot_loc; rewrite ?upd_other by discriminate; reflexivity
+            |first [ left; cbn; congruence
+                   | match goal with H : _ \/ _ |- _ => destruct H as [[Hq ->]|(n0 & Hq1 & Hq2 & ->)]; [left; congruence|right; eauto] end ] ]; fail).
+  all: repeat match goal with
+         | H : (_ =? _) = false |- _ => apply N.eqb_neq in H
+         | H : (_ =? _) = true |- _ => apply N.eqb_eq in H
+         | H : (_ && _) = true |- _ => apply andb_prop in H; destruct H
+         end.
+  all: try (first
+    [ solve [right; left; eexists; iu_close]
+    | solve [right; right; left; eexists; iu_close]
+    | solve [right; right; right; eexists; iu_close] ]).
+Qed.
+
+
+Lemma node_init_ctrl s n k : mem (node_init s n) (LCtrl k) = if decide (k = n) then IDLE else mem s (LCtrl k).
+Proof.
+  unfold node_init. cbn. destruct (decide (k = n)) as [->|Hne].
+  - repeat (rewrite upd_other by discriminate). rewrite upd_same. reflexivity.
+  - repeat (rewrite upd_other by (discriminate || congruence)). reflexivity.
+Qed.
+Lemma node_init_offer s n k : mem (node_init s n) (LOffer k) = if decide (k = n) then env_val n else mem s (LOffer k).
+Proof.
+  unfold node_init. cbn. destruct (decide (k = n)) as [->|Hne].
+  - repeat (rewrite upd_other by discriminate). rewrite upd_same. reflexivity.
+  - repeat (rewrite upd_other by (discriminate || congruence)). reflexivity.
+Qed.
+
+Lemma exec_tables cf s l p x s' l' evs nx n :
+  (forall k, k < mem s LHead -> ctl_ok (mem s (LCtrl k)) (mem s LHead)) ->
+  (forall k, k < mem s LHead -> is_env (mem s (LOffer k)) (mem s LHead)) ->
+  pc_nodes_ok (mem s LHead) p -> gen_ok l ->
+  (in_with p = true -> tl_node l = Some n /\ top_ok (mem s LHead) (mem s) l n (Some p)) ->
+  exec cf s l p x = (s', l', evs, nx) ->
+  mem s LHead <= mem s' LHead /\
+  (forall k, k < mem s' LHead -> ctl_ok (mem s' (LCtrl k)) (mem s' LHead)) /\
+  (forall k, k < mem s' LHead -> is_env (mem s' (LOffer k)) (mem s' LHead)).
+Proof.
+  intros Hctl Hoff Hp Hg Hwith He.
+  assert (Hon : in_with p = true -> own_node l = n).
+  { intros Hi. unfold own_node. rewrite (proj1 (Hwith Hi)). reflexivity. }
+  destruct p; unfold exec in He;
+    unfold a_load, a_store, a_swap, a_cas, a_fadd, a_fsub in He; cbn in He; cbn in Hp, Hwith, Hon;
+    try (rewrite (Hon eq_refl) in * ); try (destruct (Hwith eq_refl) as [Htn Htop]; cbn in Htop).
+  all: destr_in He; try discriminate.
+  all: try (injection He as <- <- <- <-).
+  all: cbn [mem m_set] in *.
+  all: repeat match goal with
+         | H : rc_inc _ _ = Some (?s0, _) |- _ =>
+             rewrite ?(rc_inc_other _ _ _ _ LHead H) by discriminate;
+             assert (forall k0, mem s0 (LCtrl k0) = mem _ (LCtrl k0)) by (intros; apply (rc_inc_other _ _ _ _ _ H); discriminate);
+             assert (forall k0, mem s0 (LOffer k0) = mem _ (LOffer k0)) by (intros; apply (rc_inc_other _ _ _ _ _ H); discriminate);
+             clear H
+         | H : rc_dec _ _ = Some (?s0, _) |- _ =>
+             rewrite ?(rc_dec_other _ _ _ _ LHead H) by discriminate;
+             assert (forall k0, mem s0 (LCtrl k0) = mem _ (LCtrl k0)) by (intros; apply (rc_dec_other _ _ _ _ _ H); discriminate);
+             assert (forall k0, mem s0 (LOffer k0) = mem _ (LOffer k0)) by (intros; apply (rc_dec_other _ _ _ _ _ H); discriminate);
+             clear H
+         | H : rc_alloc _ _ = Some (?s0, _) |- _ =>
+             rewrite ?(rc_alloc_other _ _ _ _ LHead H) by discriminate;
+             assert (forall k0, mem s0 (LCtrl k0) = mem _ (LCtrl k0)) by (intros; apply (rc_alloc_other _ _ _ _ _ H); discriminate);
+             assert (forall k0, mem s0 (LOffer k0) = mem _ (LOffer k0)) by (intros; apply (rc_alloc_other _ _ _ _ _ H); discriminate);
+             clear H
+         end.
+  all: try (split; [reflexivity|]; split; intros k0 Hk0;
+            repeat match goal with H : forall k0, mem _ _ = mem _ _ |- _ => rewrite H end;
+            auto; fail).
+  all: unfold slot_loc.
+  all: try (rewrite !(upd_other _ _ LHead) by discriminate;
+            split; [reflexivity|]; split; intros k0 Hk0;
+            rewrite upd_other by discriminate; auto; fail).
+  1: { (* GPush succeeded: a new node *)
+    rewrite node_init_head. cbn [mem m_set]. rewrite upd_same. unfold node_val.
+    match goal with H : (_ && _) = true |- _ => apply andb_prop in H as [Hh _]; apply N.eqb_eq in Hh end.
+    split; [lia|]. split; intros k0 Hk0.
+    + rewrite node_init_ctrl. destruct (decide (k0 = head)); [left; reflexivity|].
+      cbn [mem m_set]. rewrite upd_other by discriminate.
+      eapply ctl_ok_mono; [|apply Hctl; lia]. lia.
+    + rewrite node_init_offer. destruct (decide (k0 = head)) as [->|].
+      * exists head. split; [lia|reflexivity].
+      * cbn [mem m_set]. rewrite upd_other by discriminate.
+        eapply is_env_mono; [|apply Hoff; lia]. lia. }
+  all: rewrite !(upd_other _ _ LHead) by discriminate; (split; [reflexivity|]); split; intros k0 Hk0.
+  all: try (rewrite upd_other by discriminate; auto; fail).
+  all: unfold upd; match goal with |- context [decide (?a = ?b)] => destruct (decide (a = b)) as [E|E] end;
+       try (apply Hctl; exact Hk0); try (apply Hoff; exact Hk0).
+  all: try (left; reflexivity).
+  all: try (right; left; destruct Htop as (_ & -> & _); apply lor_gen; apply Hg).
+  all: try (right; right; destruct Hp as (_ & _ & _ & (e0 & He0 & ->)); exists e0; split; [exact He0|apply lor_env]).
+  all: try (destruct Htop as (_ & _ & He0); exists e; split; [exact He0|reflexivity]).
+  all: try (destruct Hp as (_ & Hth); exact Hth).
+Qed.
+
+
+(** ** Resuming a waiting frame: thread-local, the node stays, no panic. *)
+Lemma load_body_node cf l c l' nx : load_body cf l c = (l', nx) -> tl_node l' = tl_node l.
+Proof. unfold load_body. destruct (cf_use_fast cf); [intros [= <- <-]; reflexivity|apply fallback_entry_node]. Qed.
+
+Lemma rcu_attempt_node cf l c m p d l' nx : rcu_attempt cf l c m p d = (l', nx) -> tl_node l' = tl_node l.
+Proof.
+  intros He. unfold rcu_attempt in He. destr_in He; try discriminate; injection He as <- <-;
+    repeat match goal with H : enter_load _ _ _ = inl (_, _) |- _ => apply enter_load_node in H end; congruence.
+Qed.
+
+Lemma resume_node cf l w v l' nx : resume cf l w v = (l', nx) -> tl_node l' = tl_node l.
+Proof.
+  intros He. destruct w; unfold resume in He; destr_in He; try discriminate;
+    try (match type of He with rcu_attempt _ _ _ _ _ _ = _ => eapply rcu_attempt_node; exact He end);
+    try (injection He as <- <-);
+    repeat match goal with
+      | H : load_body _ _ _ = (_, _) |- _ => apply load_body_node in H
+      | H : enter_load _ _ _ = inl (_, _) |- _ => apply enter_load_node in H
+      end; cbn in *; congruence.
+Qed.
+
+Lemma load_body_own cf l c l' nx bound m n :
+  load_body cf l c = (l', nx) -> node_idle m n -> tl_node l <> None ->
+  next_own_ok bound m l' n nx.
+Proof.
+  unfold load_body. destruct (cf_use_fast cf).
+  - intros [= <- <-] Hi _. exact Hi.
+  - apply fallback_entry_own.
+Qed.
+
+Lemma rcu_attempt_own cf l c mo p d l' nx bound m n :
+  rcu_attempt cf l c mo p d = (l', nx) -> node_idle m n -> next_own_ok bound m l' n nx.
+Proof.
+  intros He Hi. unfold rcu_attempt in He. destr_in He; try discriminate.
+  all: try (match goal with H : enter_load ?cf0 ?l0 ?c0 = inr _ |- _ =>
+              destruct (enter_load_total cf0 l0 c0) as [? Hel]; rewrite Hel in H; discriminate H end).
+  all: injection He as <- <-; unfold next_own_ok; try exact Hi.
+  all: try (match goal with
+            | H : enter_load _ _ _ = inl (?t, ?fs) |- _ /\ top_ok _ _ ?t _ (hd_error (?fs ++ _)) =>
+                split; [exact Hi|]; eapply enter_load_top_app; [exact H|exact Hi]
+            | H : guard_drop_frames ?p ?d = ?fs |- _ /\ top_ok _ ?m ?t ?n0 (hd_error ?fs) =>
+                split; [exact Hi|]; rewrite <- H; apply guard_frames_top; exact Hi
+            end).
+Qed.
+
+Lemma resume_own cf l w v l' nx bound m n :
+  resume cf l w v = (l', nx) -> node_idle m n -> ret_node_ok l v ->
+  next_own_ok bound m l' n nx.
+Proof.
+  intros He Hi Hrv. destruct w; unfold resume in He; destr_in He; try discriminate.
+  all: try (match type of He with rcu_attempt _ _ _ _ _ _ = _ => eapply rcu_attempt_own; [exact He|exact Hi] end).
+  all: try (match goal with H : enter_load ?cf0 ?l0 ?c0 = inr _ |- _ =>
+              destruct (enter_load_total cf0 l0 c0) as [? Hel]; rewrite Hel in H; discriminate H end).
+  all: try (injection He as <- <-).
+  all: unfold next_own_ok.
+  all: try (match goal with |- True => exact I end).
+  all: try (unfold dec_then; match goal with |- context [if ?b then _ else _] => destruct b end; cbn [next_own_ok]).
+  all: try (exact Hi).
+  all: try (match goal with
+            | H : load_body _ _ _ = (_, ?nx) |- match ?nx with _ => _ end =>
+                eapply load_body_own; [exact H|exact Hi|cbn in *; congruence]
+            | H : enter_load _ _ _ = inl (?t, ?fs) |- _ /\ top_ok _ _ ?t _ (hd_error (?fs ++ _)) =>
+                split; [exact Hi|]; eapply enter_load_top_app; [exact H|exact Hi]
+            | H : enter_load _ _ _ = inl (?t, ?fs) |- _ /\ top_ok _ _ ?t _ (hd_error ?fs) =>
+                split; [exact Hi|]; eapply enter_load_top; [exact H|exact Hi]
+            | H : guard_drop_frames ?p ?d = ?fs |- _ /\ top_ok _ ?m ?t ?n0 (hd_error ?fs) =>
+                split; [exact Hi|]; rewrite <- H; apply guard_frames_top; exact Hi
+            | H : guard_into_frames ?p ?d = ?fs |- _ /\ top_ok _ ?m ?t ?n0 (hd_error ?fs) =>
+                split; [exact Hi|]; rewrite <- H; apply guard_frames_top; exact Hi
+            end).
+  all: try (cbn; unfold pay_body; try destruct (_ =? 0); exact Hi).
+  match goal with H : guard_into_frames ?p ?d = _ |- _ =>
+    pose proof (proj2 (guard_frames_top p d bound m l n Hi)) as HT; rewrite H in HT; exact HT end.
+Qed.
+
+(** Frames of a thread that holds no node cannot panic either. *)
+Lemma exec_noown cf s l p x s' l' evs nx :
+  own_of l p = None -> in_with p = false ->
+  exec cf s l p x = (s', l', evs, nx) ->
+  match nx with NPanic _ => False | _ => True end.
+Proof.
+  intros Hown Hw He. unfold own_of in Hown.
+  destruct p; cbn in Hw; try discriminate; unfold exec in He;
+    unfold a_load, a_store, a_swap, a_cas, a_fadd, a_fsub in He; cbn in He.
+  all: destr_in He; try discriminate.
+  all: try (match goal with H : enter_load ?cf0 ?l0 ?c0 = inr _ |- _ =>
+              destruct (enter_load_total cf0 l0 c0) as [? Hel]; rewrite Hel in H; discriminate H end).
+  all: try (injection He as <- <- <- <-).
+  all: try exact I.
+  all: try (unfold dec_then; match goal with |- context [if ?b then _ else _] => destruct b end; exact I).
+  destruct (tl_node l); discriminate.
 Qed.
 
